@@ -36,16 +36,28 @@ def extra(ctx, res):
     with res.guard("check_purectx, eff, res, overlap.edge_overlap, rootsh,"):
         check_pure(ctx, eff, res, "overlap.edge_overlap", roots=("h",))
     # edge_overlap: loop over get_existing_layers(), accumulate get_weight(edge, layer)
-    v = ctx.view("overlap.edge_overlap")
-    loops = [n for n in walk_no_nested(v.fi.node) if isinstance(n, ast.For) and isinstance(n.iter, ast.Call) and isinstance(n.iter.func, ast.Attribute) and n.iter.func.attr == "get_existing_layers"]
-    res.check(bool(loops), "F-LAYERS", v.fi.short, "for layer in h.get_existing_layers()", "loop", "edge_overlap does not range over the registered layers", loc(v.fi, v.fi.node))
-    for lp in loops:
-        tgt = lp.target.id if isinstance(lp.target, ast.Name) else None
-        calls = [c for c in ast.walk(lp) if isinstance(c, ast.Call) and isinstance(c.func, ast.Attribute) and c.func.attr == "get_weight"]
-        okc = [c for c in calls if len(c.args) >= 2 and isinstance(c.args[1], ast.Name) and c.args[1].id == tgt]
-        res.check(bool(okc), "F-LAYERS", v.fi.short, norm(lp.iter), "weight-of-layer", "the weight is not looked up for the layer of the current iteration", loc(v.fi, lp))
-        augs = [a for a in ast.walk(lp) if isinstance(a, ast.AugAssign) and isinstance(a.op, ast.Add)]
-        res.check(bool(augs), "F-LAYERS", v.fi.short, norm(lp.iter), "accumulate", "per-layer weights are not summed", loc(v.fi, lp))
+    with res.guard("edge_overlap ranges over the registered layers"):
+        v = ctx.view("overlap.edge_overlap")
+        loops = [n for n in walk_no_nested(v.fi.node) if isinstance(n, ast.For) and isinstance(v.inline(n.iter), ast.Call) and isinstance(v.inline(n.iter).func, ast.Attribute) and v.inline(n.iter).func.attr == "get_existing_layers"]
+        if loops:
+            res.ok("F-LAYERS", v.fi.short, "for layer in h.get_existing_layers()", "loop", loc(v.fi, loops[0]))
+        else:
+            gens = [g for n in ast.walk(v.fi.node) if isinstance(n, (ast.GeneratorExp, ast.ListComp)) for g in n.generators if isinstance(g.iter, ast.Call) and isinstance(g.iter.func, ast.Attribute) and g.iter.func.attr == "get_existing_layers"]
+            other_loops = [n for n in walk_no_nested(v.fi.node) if isinstance(n, ast.For)]
+            res.add("F-LAYERS", v.fi.short, "for layer in h.get_existing_layers()", "loop", "unknown" if gens or not other_loops else "violation", "edge_overlap does not range over the registered layers", loc(v.fi, v.fi.node))
+        for lp in loops:
+            tgt = lp.target.id if isinstance(lp.target, ast.Name) else None
+            calls = [c for c in ast.walk(lp) if isinstance(c, ast.Call) and ((isinstance(c.func, ast.Attribute) and c.func.attr == "get_weight") or any(cal.short.endswith(".get_weight") for cal in ctx.callees(v.fi, c)))]
+            def layer_arg(c):
+                kw = {k.arg: k.value for k in c.keywords}
+                return kw.get("layer", c.args[1] if len(c.args) >= 2 else None)
+            okc = [c for c in calls if isinstance(layer_arg(c), ast.Name) and layer_arg(c).id == tgt]
+            bad = [c for c in calls if c not in okc and layer_arg(c) is not None]
+            res.add("F-LAYERS", v.fi.short, norm(lp.iter), "weight-of-layer", "ok" if okc and not bad else ("violation" if bad else "unknown"), "" if okc and not bad else "the weight is not looked up for the layer of the current iteration", loc(v.fi, lp))
+            augs = [a for a in ast.walk(lp) if isinstance(a, ast.AugAssign) and isinstance(a.op, ast.Add)]
+            adds = [a for a in ast.walk(lp) if isinstance(a, ast.Assign) and isinstance(a.value, ast.BinOp) and isinstance(a.value.op, ast.Add)]
+            wrong = [a for a in ast.walk(lp) if isinstance(a, ast.AugAssign) and not isinstance(a.op, ast.Add)]
+            res.add("F-LAYERS", v.fi.short, norm(lp.iter), "accumulate", "ok" if augs or adds else ("violation" if wrong else "unknown"), "" if augs or adds else "per-layer weights are not summed", loc(v.fi, lp))
     with res.guard("check_filter_clientsctx, res, DEGREE:2"):
         check_filter_clients(ctx, res, DEGREE[:2])
     return res
